@@ -6,6 +6,7 @@ import CV.Proofs.InvTasksThm
 import CV.Proofs.InvTasksOnce
 import CV.Proofs.InvTasksWait
 import CV.Proofs.InvTasksRange
+import CV.Proofs.InvTasksOwn2
 /-
 C04 - value layer.  `Val.set` is the function the machine calls for every non-None handler
 result (`setValue` in CV.Model.Core.Machine); these theorems say that whatever sequence of
@@ -343,10 +344,11 @@ Clauses that are sanity conditions:
          invariant `T46RQ` - ids in queues, in `Timer.event` and in the frames `.dispatcher/.hLoop/.hAfter/.hApply` are ids of
          existing events - under the Init hypothesis `T46InitQ` (the ids in the initial queues / timers exist, e.g. empty
          queues): `event_ids_in_range`, `guard_min_suffices_partial`;
-  (own)  a task whose user generator yields a `call`/`wait` is an ordinary task `(e, g, None)` of an existing event: NOT proved.
-         The relation for it exists (`St.T46K`, CV/Proofs/InvTasksKBase.lean + generated InvTasksK.lean: tables grow, carrier
-         generators stay carriers, every new task is `T46TaskOk`); missing are the lemmas for the helpers that register tasks or
-         overwrite generators and the `cases f`.  No counter-example is known.
+  (own)  a task whose user generator yields a `call`/`wait` is an ordinary task `(e, g, None)` of an existing event: PROVED
+         (`tasks_well_formed_partial`, CV/Proofs/InvTasksOwn*.lean) from the invariant `T46TP`: every registered task has an
+         existing event, a task with a parent is never a user generator (its generator is a waitEvent / TimeoutError / one-shot
+         value generator), started wait states have an existing `task_event`.
+So the guard consists of the two real restrictions only: `T46GuardMin2` = (tick) + (root), `two_restrictions_suffice_partial`.
 
 RUN LEVEL: `eventDone_once_partial` (passes ≤ dispatches, CV/Proofs/InvTasksOnce.lean).  OPEN: the ownership counts for user generators and
 the upgrade of C06 `caller_completes_partial`. -/
@@ -406,6 +408,38 @@ theorem guard_min_suffices_partial (s0 : St) (hi : W6InitWait s0) (hq : T46InitQ
 example (s0 : St) : T46ReachM s0 (startOf (envChange s0 0 []) (.tick 0)) := T46ReachM.init 0 [] (.tick 0) trivial
 example : T46GuardMin { st := {} } :=
   ⟨fun _ _ h => (by cases h), fun _ _ h => (by cases h), fun _ _ _ _ h => (by cases h)⟩
+
+/-- **only the two real restrictions remain.**  `T46GuardMin2` = (tick) no handler / task re-enters the task loop with pending
+    tasks + (root) no step changes the root of a component whose task loop is active.  An admissible session (C06) from an initial
+    state satisfying `T46Init`, `W6InitWait`, `T46InitQ` on which these two hold at every step taken is a guarded session, so all
+    `_partial` theorems of this section apply to it; and in each of its configurations the accounting invariant holds. -/
+theorem two_restrictions_suffice_partial (s0 : St) (h0 : T46Init s0) (hi : W6InitWait s0) (hq : T46InitQ s0) (c : Cfg)
+    (h : T46ReachM2 s0 c) : T46Reach s0 c ∧ T46Inv c := ⟨(h.all h0 hi hq).1, (h.all h0 hi hq).2.1⟩
+
+/-- **tasks are well formed** (PARTIAL: sessions guarded by (tick) + (root)).  Every registered task belongs to an existing event;
+    a task with a parent is never a user generator: its generator is a waitEvent generator, a `TimeoutError` carrier or a one-shot
+    value generator; a started wait state has an existing `task_event`; and the task of a `.ptOwn` frame (the task's own user
+    generator has just been advanced) is an ordinary task `(e, g, None)` of an existing event - clause (own). -/
+theorem tasks_well_formed_partial (s0 : St) (h0 : T46Init s0) (hi : W6InitWait s0) (hq : T46InitQ s0) (c : Cfg)
+    (h : T46ReachM2 s0 c) :
+    (∀ x t, t ∈ (c.st.comp x).tasks → t.e < c.st.evs.length ∧
+      (t.parent.isSome = true → t.g < c.st.gens.length ∧ (c.st.gen t.g).t46_carrier = true)) ∧
+    (∀ w, (c.st.wait w).started = true → (c.st.wait w).taskEvent < c.st.evs.length) ∧
+    (∀ r t k, c.stack = .ptOwn r t :: k → t.parent = none ∧ t.e < c.st.evs.length) :=
+  ⟨(h.all h0 hi hq).2.2.tasks, (h.all h0 hi hq).2.2.waits, fun r t k hs => (h.all h0 hi hq).2.2.own r t k hs⟩
+
+example (s0 : St) : T46ReachM2 s0 (startOf (envChange s0 0 []) (.tick 0)) := T46ReachM2.init 0 [] (.tick 0) trivial
+example : T46GuardMin2 { st := {} } := ⟨fun _ _ h => (by cases h), fun _ _ h => (by cases h)⟩
+/-- the three Init hypotheses hold together for the empty state -/
+example : T46Init {} ∧ W6InitWait {} ∧ T46InitQ {} := by
+  refine ⟨⟨fun x => by cases x <;> rfl, rfl, fun e => ?_⟩, ⟨rfl, rfl, fun h hh => absurd hh (Nat.not_lt_zero _), fun c k h hm => ?_,
+    fun c => ?_, fun c => ?_, fun p hp => ?_⟩, T46InitQ.of_empty {} (fun x => by cases x <;> exact ⟨rfl, rfl⟩) (fun i tm h => by simp at h)⟩
+  · have : ({} : St).ev e = dfltEv := by cases e <;> rfl
+    rw [this]; decide
+  · simp [St.comp, dfltComp] at hm
+  · simp [St.comp, dfltComp]
+  · simp [St.comp, dfltComp]
+  · simp at hp
 
 /-- **waiting_accounting** (PARTIAL: guarded sessions).  In every configuration, for every event:
     task weights + pending-wait weights + frame weights ≤ `waitingHandlers`; in particular the counter is never negative. -/
